@@ -25,19 +25,20 @@ Lemma eval_pure_frame_all :
 Proof.
   apply expr_mutind; try (intros; exact I).
   - intros c _ _ _ st st' v _ H. simpl in *. inversion H; subst. reflexivity.
-  - intros x _ _ N st st' v A H. destruct x as [x|k]; simpl in N; try discriminate. simpl in *.
-    rewrite (A x) by auto. destruct (fst st (VU x)); inversion H; subst. reflexivity.
+  - intros x _ _ N st st' v A H. destruct x as [x|k]; simpl in N; try discriminate.
+    destruct st as [s t], st' as [s' t']. simpl in *.
+    rewrite (A x) by auto. destruct (s (VU x)); inversion H; subst. reflexivity.
   - intros op e IH P L N st st' v A H. simpl in P, L, N, H, A.
     destruct (eval oracle e st) as [[v1 s1]| |] eqn:E; simpl in H; try discriminate.
-    assert (s1 = st) by (eapply (proj1 (pure_eval_all oracle)); eauto). subst s1.
+    assert (s1 = st) by (exact (proj1 (pure_eval_all oracle) e P st v1 s1 E)). subst s1.
     simpl. rewrite (IH P L N st st' v1 A E). simpl. destruct (eval_unop op v1); inversion H; subst; reflexivity.
   - intros op a IHa b IHb P L N st st' v A H. simpl in P, L, N, H, A.
     apply andb_prop in P. destruct P as [Pa Pb]. apply andb_prop in L. destruct L as [La Lb].
     apply andb_prop in N. destruct N as [Na Nb].
     destruct (eval oracle a st) as [[va s1]| |] eqn:Ea; simpl in H; try discriminate.
-    assert (s1 = st) by (eapply (proj1 (pure_eval_all oracle)); eauto). subst s1.
+    assert (s1 = st) by (exact (proj1 (pure_eval_all oracle) a Pa st va s1 Ea)). subst s1.
     destruct (eval oracle b st) as [[vb s2]| |] eqn:Eb; simpl in H; try discriminate.
-    assert (s2 = st) by (eapply (proj1 (pure_eval_all oracle)); eauto). subst s2.
+    assert (s2 = st) by (exact (proj1 (pure_eval_all oracle) b Pb st vb s2 Eb)). subst s2.
     simpl. rewrite (IHa Pa La Na st st' va) by (auto; intros; apply A; apply in_or_app; auto). simpl.
     rewrite (IHb Pb Lb Nb st st' vb) by (auto; intros; apply A; apply in_or_app; auto). simpl.
     destruct (eval_binop op va vb); inversion H; subst; reflexivity.
@@ -45,9 +46,9 @@ Proof.
     simpl in P, N, H, A. apply andb_prop in P. destruct P as [Pl Pr]. apply andb_prop in L. destruct L as [Ll Lr].
     apply andb_prop in N. destruct N as [Nl Nr].
     destruct (eval oracle l st) as [[vl s1]| |] eqn:El; simpl in H; try discriminate.
-    assert (s1 = st) by (eapply (proj1 (pure_eval_all oracle)); eauto). subst s1.
+    assert (s1 = st) by (exact (proj1 (pure_eval_all oracle) l Pl st vl s1 El)). subst s1.
     destruct (eval oracle r st) as [[vr s2]| |] eqn:Er; simpl in H; try discriminate.
-    assert (s2 = st) by (eapply (proj1 (pure_eval_all oracle)); eauto). subst s2.
+    assert (s2 = st) by (exact (proj1 (pure_eval_all oracle) r Pr st vr s2 Er)). subst s2.
     simpl. rewrite (IHl Pl Ll Nl st st' vl) by (auto; intros; apply A; apply in_or_app; auto). simpl.
     rewrite (IHr Pr Lr Nr st st' vr) by (auto; intros; apply A; apply in_or_app; auto). simpl.
     destruct (eval_cmpop op vl vr); inversion H; subst; reflexivity.
@@ -57,16 +58,16 @@ Proof.
   - intros f args _ P. simpl in P. discriminate.
   - intros es IH P L N st st' v A H. simpl in P, L, N, H, A.
     destruct (eval_list oracle es st) as [[vs s1]| |] eqn:E; simpl in H; try discriminate.
-    assert (s1 = st) by (eapply (proj1 (proj2 (pure_eval_all oracle))); eauto). subst s1.
+    assert (s1 = st) by (exact (proj1 (proj2 (pure_eval_all oracle)) es P st vs s1 E)). subst s1.
     simpl. rewrite (IH P L N st st' vs A E). simpl. inversion H; subst; reflexivity.
   - intros _ _ _ st st' vs _ H. simpl in *. inversion H; subst. reflexivity.
   - intros e IHe es IHes P L N st st' vs A H. simpl in P, L, N, H, A.
     apply andb_prop in P. destruct P as [Pa Pb]. apply andb_prop in L. destruct L as [La Lb].
     apply andb_prop in N. destruct N as [Na Nb].
     destruct (eval oracle e st) as [[v1 s1]| |] eqn:E1; simpl in H; try discriminate.
-    assert (s1 = st) by (eapply (proj1 (pure_eval_all oracle)); eauto). subst s1.
+    assert (s1 = st) by (exact (proj1 (pure_eval_all oracle) e Pa st v1 s1 E1)). subst s1.
     destruct (eval_list oracle es st) as [[v2 s2]| |] eqn:E2; simpl in H; try discriminate.
-    assert (s2 = st) by (eapply (proj1 (proj2 (pure_eval_all oracle))); eauto). subst s2.
+    assert (s2 = st) by (exact (proj1 (proj2 (pure_eval_all oracle)) es Pb st v2 s2 E2)). subst s2.
     simpl. rewrite (IHe Pa La Na st st' v1) by (auto; intros; apply A; apply in_or_app; auto). simpl.
     rewrite (IHes Pb Lb Nb st st' v2) by (auto; intros; apply A; apply in_or_app; auto). simpl.
     inversion H; subst; reflexivity.
@@ -113,8 +114,8 @@ Proof.
   destruct (Sem G E1 stm stp vr stp' ret S Er) as (stm2&T&M&(stc2&R2&S2)&P).
   pose proof (mid_eval m stm stp vm Pm Nm S Em) as Em1.
   assert (Em2: eval oracle m stm2 = Done (vm, stm2)).
-  { eapply (proj1 eval_pure_frame_all); eauto. intros x Hx. destruct M as (MU&_). apply MU.
-    eapply disjoint_spec; eauto. }
+  { apply (proj1 eval_pure_frame_all m Pm Lm Nm stm stm2 vm); [|exact Em1].
+    intros x Hx. destruct M as (MU&_). apply MU. eapply disjoint_spec; eauto. }
   assert (EvP: eval_truth oracle p stm2 = Done (c, stc2)).
   { unfold eval_truth, p. simpl. rewrite residue_eval, Em2. simpl. rewrite R2. simpl. rewrite Cm. reflexivity. }
   exists stc2. split.
@@ -154,7 +155,7 @@ Proof.
   intros G E stm stp vm v stp' ret S Em Ec.
   assert (E1: ext g1 G) by (eapply ext_trans; [eapply grows_ext; eauto | auto]).
   simpl in Ec. destruct (eval oracle m2 stp) as [[vm2 sp2]| |] eqn:Em2; simpl in Ec; try discriminate.
-  assert (sp2 = stp) by (eapply (proj1 (pure_eval_all oracle)); eauto). subst sp2.
+  assert (sp2 = stp) by (exact (proj1 (pure_eval_all oracle) m2 PU stp vm2 sp2 Em2)). subst sp2.
   destruct (eval_cmpop op vm vm2) as [c|] eqn:Cm; try discriminate.
   pose proof (mid_eval m stm stp vm Pm Nm S Em) as Ec1.
   pose proof (mid_eval m2 stm stp vm2 PU N2 S Em2) as Ec2.
@@ -165,7 +166,7 @@ Proof.
   - destruct (Sem2 G E stm stp vm2 v stp' ret S Em2 Ec) as (stc'&T2&S2&F2&P2). rewrite SLX1, SLX0 in T2.
     exists stc'. split; [eapply steps_trans; eauto|]. split; auto. split; auto.
     simpl. intros PP. apply andb_prop in PP. destruct PP. auto.
-  - inversion Ec; subst. simpl. exists stm. split; auto. split; auto.
+  - inversion Ec; subst. simpl. exists stm. split; auto.
 Qed.
 
 (* BranchBuilder.visit_Compare on l op m rest with a possibly lifted first operand *)
@@ -213,7 +214,7 @@ Proof.
   pose proof Ev as Ev0.
   simpl in Ev. destruct (eval oracle l stp) as [[vl sp1]| |] eqn:El; simpl in Ev; try discriminate.
   destruct (eval oracle m sp1) as [[vm sp2]| |] eqn:Em; simpl in Ev; try discriminate.
-  assert (sp2 = sp1) by (eapply (proj1 (pure_eval_all oracle)); eauto). subst sp2.
+  assert (sp2 = sp1) by (exact (proj1 (pure_eval_all oracle) m PU sp1 vm sp2 Em)). subst sp2.
   destruct (eval_cmpop op vl vm) as [c|] eqn:Cm; try discriminate.
   destruct (Sem2 G E2 stc stp vl sp1 ret S El) as (stm&T&M&(stc1&R1&S1)&P). rewrite SL1 in T.
   pose proof (mid_eval m stc1 sp1 vm PU Nm S1 Em) as Em1.
